@@ -21,6 +21,9 @@ pub struct WAct {
     quantity: usize, // 0 duration, 1..=ns parameter, then gv
     w: Vec<f64>,
     valid: bool,
+    /// > 0: not a weight update but `Condition::load_model` with the first `reload` voices of the pool on the
+    /// condition in use, followed by `Engine::new` (default equal weights must be in force afterwards)
+    reload: usize,
 }
 impl Eq for WAct {}
 impl Hash for WAct {
@@ -36,6 +39,10 @@ pub struct WState {
     render: String,
     reference: Vec<Vec<f64>>,
     bad: Option<String>,
+    /// number of voices of `engine`
+    nv: usize,
+    /// the calls that led here (not part of the state's identity; used for reporting)
+    hist: Vec<WAct>,
 }
 impl PartialEq for WState {
     fn eq(&self, o: &Self) -> bool {
@@ -53,9 +60,14 @@ impl Hash for WState {
 
 pub struct WModel {
     base: Engine,
+    /// fresh engines on the first k voices of the pool (index k), k = 1..=3
+    fresh: Vec<Option<Engine>>,
+    pool: Vec<Arc<Voice>>,
     ns: usize,
     nv: usize,
-    acts: Vec<WAct>,
+    /// weight-update alphabet per current voice count (index = voice count)
+    acts: Vec<Vec<WAct>>,
+    found: std::sync::Mutex<Vec<(Vec<WAct>, String, usize)>>,
     depth: u8,
     utt: Vec<String>,
     transitions: AtomicU64,
@@ -96,7 +108,7 @@ fn getters_match(e: &Engine, ns: usize, reference: &[Vec<f64>]) -> Option<String
 impl WModel {
     fn synth_check(&self, s: &WState) -> Option<String> {
         // waveform of the history engine == waveform of a fresh engine given only the reference's effective weights
-        let mut fresh = self.base.clone();
+        let mut fresh = self.fresh[s.nv].clone().expect("fresh engine");
         {
             let iw = fresh.condition.get_interporation_weight_mut();
             if iw.set_duration(&s.reference[0]).is_err() {
@@ -129,11 +141,17 @@ impl Model for WModel {
         let eq = vec![1.0 / self.nv as f64; self.nv];
         let reference = vec![eq; 1 + 2 * self.ns];
         let bad = getters_match(&self.base, self.ns, &reference).map(|m| format!("initial: {}", m));
-        vec![WState { depth: 0, render: format!("{:?}", self.base.condition.get_interporation_weight()), engine: self.base.clone(), reference, bad }]
+        if let Some(b) = &bad {
+            self.found.lock().unwrap().push((vec![], b.clone(), self.nv));
+        }
+        vec![WState { depth: 0, render: format!("{} voices {:?}", self.nv, self.base.condition.get_interporation_weight()), engine: self.base.clone(), reference, bad, nv: self.nv, hist: vec![] }]
     }
     fn actions(&self, s: &WState, out: &mut Vec<WAct>) {
         if s.depth < self.depth && s.bad.is_none() {
-            out.extend(self.acts.iter().cloned());
+            out.extend(self.acts[s.nv].iter().cloned());
+            for k in 1..=self.pool.len() {
+                out.push(WAct { quantity: 0, w: vec![], valid: true, reload: k });
+            }
         }
     }
     fn next_state(&self, s: &WState, a: WAct) -> Option<WState> {
@@ -141,6 +159,39 @@ impl Model for WModel {
         let _watch = self.monitor.enter(|| format!("{:?} after {}", a, s.render));
         let mut engine = s.engine.clone();
         let mut reference = s.reference.clone();
+        let mut nv = s.nv;
+        let mut hist = s.hist.clone();
+        hist.push(a.clone());
+        if a.reload > 0 {
+            // the condition in use is loaded again, with the same or another number of voices
+            let k = a.reload;
+            let pool = self.pool.clone();
+            let cond = engine.condition.clone();
+            let r = catch(move || -> Result<Engine, String> {
+                let vs = VoiceSet::new(pool[..k].to_vec()).map_err(|e| e.to_string())?;
+                let mut cond = cond;
+                cond.load_model(&vs).map_err(|e| e.to_string())?;
+                Ok(Engine::new(vs, cond))
+            });
+            let bad = match r {
+                Err(p) => Some(format!("panic: {}", p)),
+                Ok(Err(e)) => Some(format!("load_model with {} voices rejected: {}", k, e)),
+                Ok(Ok(e)) => {
+                    engine = e;
+                    nv = k;
+                    reference = vec![vec![1.0 / k as f64; k]; 1 + 2 * self.ns];
+                    getters_match(&engine, self.ns, &reference).map(|m| format!("after load_model with {} voices on a condition that held {}: {}", k, s.nv, m))
+                }
+            };
+            let mut st = WState { depth: s.depth + 1, render: format!("{} voices {:?}", nv, engine.condition.get_interporation_weight()), engine, reference, bad, nv, hist };
+            if st.bad.is_none() {
+                st.bad = self.synth_check(&st).map(|m| format!("after load_model with {} voices: {}", k, m));
+            }
+            if let Some(b) = &st.bad {
+                self.found.lock().unwrap().push((st.hist.clone(), b.clone(), st.nv));
+            }
+            return Some(st);
+        }
         let r = catch(|| apply_real(&mut engine, self.ns, &a));
         let mut bad = match r {
             Err(p) => Some(format!("panic: {}", p)),
@@ -164,10 +215,13 @@ impl Model for WModel {
         if bad.is_none() {
             bad = getters_match(&engine, self.ns, &reference).map(|m| format!("after {:?}: {}", a, m));
         }
-        let mut st = WState { depth: s.depth + 1, render: format!("{:?}", engine.condition.get_interporation_weight()), engine, reference, bad };
+        let mut st = WState { depth: s.depth + 1, render: format!("{} voices {:?}", nv, engine.condition.get_interporation_weight()), engine, reference, bad, nv, hist };
         // synthesis after every update (the property's "subsequent synthesis")
         if st.bad.is_none() {
             st.bad = self.synth_check(&st).map(|m| format!("after {:?}: {}", a, m));
+        }
+        if let Some(b) = &st.bad {
+            self.found.lock().unwrap().push((st.hist.clone(), b.clone(), st.nv));
         }
         Some(st)
     }
@@ -182,7 +236,9 @@ impl Model for WModel {
 }
 
 fn weight_alphabet(nv: usize) -> Vec<(Vec<f64>, bool)> {
-    if nv == 2 {
+    if nv == 1 {
+        vec![(vec![1.0], true), (vec![0.5, 0.5], false), (vec![1.000001], false), (vec![0.5], false), (vec![], false), (vec![f64::NAN], false)]
+    } else if nv == 2 {
         vec![
             (vec![1.0, 0.0], true),
             (vec![0.0, 1.0], true),
@@ -313,25 +369,29 @@ pub fn run(tier: Tier) -> i32 {
     let rep: &'static Report = Box::leak(Box::new(Report::new("C19", tier, "model_checking")));
     let monitor = Arc::new(HangMonitor::start(rep, "C19 weight history"));
     let depth: u8 = tier.pick(2, 3);
-    rep.set_rule("HIST (stateright BFS): all histories of set_duration/set_parameter(i)/set_gv(i) with weight vectors from {5 valid incl. vertices and (1.5,-.5); invalid: wrong lengths, sum off by 1e-6 and 0.1, NaN, (inf,-inf), empty} to the depth bound on real 2- and 3-voice engines, synthesis after every update; states merged by (depth, Debug rendering of the real InterporationWeight); plus SCOPE: VoiceSet::new on [], and on every list of 2-4 voices where one voice (in every position) or an identical pair differs in exactly one metadata field (in every position) or in none; non-trivial = every state after at least one update");
+    rep.set_rule("HIST (stateright BFS): all histories over {set_duration/set_parameter(i)/set_gv(i) with weight vectors from {5 valid incl. vertices and (1.5,-.5); invalid: wrong lengths, sum off by 1e-6 and 0.1, NaN, (inf,-inf), large magnitudes, empty}; load_model of the condition in use with 1, 2 or 3 voices (equal weights of the new count must then be in force)} to the depth bound on real engines starting with 2 and 3 voices, getters and synthesis (vs a fresh engine given only the reference's effective weights) after every call; states merged by (depth, Debug rendering of the real InterporationWeight); plus SCOPE: VoiceSet::new on [], and on every list of 2-4 voices where one voice (in every position) or an identical pair differs in exactly one metadata field (in every position) or in none; non-trivial = every state after at least one update");
     rep.assume("weight sums strictly between 1e-15 and 1e-6 away from 1 are unspecified by the property and not in the alphabet");
     voiceset_part(rep);
     let corpus = labels::corpus();
     let utt = vec![corpus[41].clone(), corpus[42].clone()];
     for (cfg, nv) in [(GenCfg { gv: true, nstate: 2, ..GenCfg::default() }, 2usize), (GenCfg { gv: false, ns: 2, nstate: 1, stage: 1, order: 4, ..GenCfg::default() }, 3usize)] {
         let voices: Vec<Arc<Voice>> = (0..nv).map(|v| Arc::new(load_voice_bytes(&GenCfg { variant: v as u32, ..cfg.clone() }.bytes()).expect("generated voice"))).collect();
+        let pool: Vec<Arc<Voice>> = (0..3).map(|v| Arc::new(load_voice_bytes(&GenCfg { variant: v as u32, ..cfg.clone() }.bytes()).expect("generated voice"))).collect();
+        let fresh: Vec<Option<Engine>> = (0..=3).map(|k| if k == 0 { None } else { Some(engine_from_voices(pool[..k].to_vec()).expect("voice set")) }).collect();
         let base = engine_from_voices(voices).expect("voice set");
         let ns = cfg.ns;
-        let mut acts = Vec::new();
-        for q in 0..1 + 2 * ns {
-            for (w, valid) in weight_alphabet(nv) {
-                acts.push(WAct { quantity: q, w, valid });
+        let mut acts: Vec<Vec<WAct>> = vec![vec![]; 4];
+        for k in 1..=3 {
+            for q in 0..1 + 2 * ns {
+                for (w, valid) in weight_alphabet(k) {
+                    acts[k].push(WAct { quantity: q, w, valid, reload: 0 });
+                }
             }
         }
         let mut counts = Vec::new();
         for threads in [nthreads(), (nthreads() / 2).max(2)] {
             let d = depth;
-            let model = WModel { base: base.clone(), ns, nv, acts: acts.clone(), depth: d, utt: utt.clone(), transitions: Default::default(), synths: Default::default(), rejected: Default::default(), checked_last: Default::default(), monitor: monitor.clone() };
+            let model = WModel { base: base.clone(), fresh: fresh.clone(), pool: pool.clone(), found: Default::default(), ns, nv, acts: acts.clone(), depth: d, utt: utt.clone(), transitions: Default::default(), synths: Default::default(), rejected: Default::default(), checked_last: Default::default(), monitor: monitor.clone() };
             let checker = model.checker().threads(threads).target_max_depth(d as usize + 2).spawn_bfs().join();
             counts.push(checker.unique_state_count());
             rep.guard(checker.model().checked_last.load(Ordering::Relaxed) > 0, "invariant never evaluated on states at the depth bound");
@@ -342,11 +402,12 @@ pub fn run(tier: Tier) -> i32 {
                 rep.traces.fetch_add(tr, Ordering::Relaxed);
                 rep.eval(tr);
                 rep.nontrivial.fetch_add(checker.unique_state_count() as u64 - 1, Ordering::Relaxed);
-                rep.note(&format!("bounds_{}voices", nv), json!({"actions": acts.len(), "depth": d, "unique_states": checker.unique_state_count(), "transitions": tr, "syntheses": checker.model().synths.load(Ordering::Relaxed), "rejected_updates": checker.model().rejected.load(Ordering::Relaxed), "voice": cfg.describe()}));
-                for (_name, path) in checker.discoveries() {
-                    let actions: Vec<WAct> = path.clone().into_actions();
-                    let what = path.last_state().bad.clone().unwrap_or_default();
-                    let key = if what.contains("accepted") {
+                rep.note(&format!("bounds_{}voices", nv), json!({"actions_per_state": [acts[1].len() + 3, acts[2].len() + 3, acts[3].len() + 3], "depth": d, "unique_states": checker.unique_state_count(), "transitions": tr, "syntheses": checker.model().synths.load(Ordering::Relaxed), "rejected_updates": checker.model().rejected.load(Ordering::Relaxed), "voice": cfg.describe()}));
+                let found = checker.model().found.lock().unwrap().clone();
+                for (actions, what, nv) in found {
+                    let key = if what.contains("load_model") {
+                        "reload"
+                    } else if what.contains("accepted") {
                         "invalid-accepted"
                     } else if what.contains("rejected:") {
                         "valid-rejected"
@@ -357,10 +418,11 @@ pub fn run(tier: Tier) -> i32 {
                     } else {
                         "getter-mismatch"
                     };
-                    let hist: Vec<Value> = actions.iter().map(|a| json!({"quantity": a.quantity, "weights": a.w.iter().map(|x| format!("{:e}", x)).collect::<Vec<_>>(), "valid": a.valid})).collect();
+                    let hist: Vec<Value> = actions.iter().map(|a| if a.reload > 0 { json!({"load_model_with_voices": a.reload}) } else { json!({"quantity": a.quantity, "weights": a.w.iter().map(|x| format!("{:e}", x)).collect::<Vec<_>>(), "valid": a.valid}) }).collect();
                     rep.violation(key, format!("{} ({} voices) after history {:?}", what, nv, actions), json!({"voices": nv, "voice": cfg.describe(), "history": hist, "labels": utt}));
                 }
                 rep.sample(json!({"voices": nv, "history": [{"quantity": 0, "weights": [0.5, 0.6], "valid": false}, {"quantity": 1, "weights": [1.0, 0.0], "valid": true}]}));
+                rep.sample(json!({"voices": nv, "history": [{"quantity": 1, "weights": [0.3, 0.7], "valid": true}, {"load_model_with_voices": 1}]}));
             }
         }
         if rep.violation_count() == 0 && counts[0] != counts[1] {
